@@ -289,10 +289,17 @@ def match_known(prop, clauses, replay, known):
 # Evidence
 # --------------------------------------------------------------------------
 def write_evidence(prop, ev):
+    if REPO != "/repo":
+        return None   # a developer run on a scratch worktree leaves no evidence
     os.makedirs(os.path.join(VERIF, "evidence"), exist_ok=True)
     p = os.path.join(VERIF, "evidence", prop + ".json")
     with open(p, "w") as f:
         json.dump(ev, f, indent=1, default=str)
+    # the latest thorough run is kept beside it (evidence/<id>.json is rewritten by every run, also by quick ones)
+    if ev.get("tier") == "thorough":
+        os.makedirs(os.path.join(VERIF, "evidence", "thorough"), exist_ok=True)
+        with open(os.path.join(VERIF, "evidence", "thorough", prop + ".json"), "w") as f:
+            json.dump(ev, f, indent=1, default=str)
     return p
 
 
